@@ -18,7 +18,7 @@ MODELLED = {
                          "PureScheduler._create_task", "PureScheduler._record_beginning", "PureScheduler._remaining_timeout",
                          "PureScheduler._tidy_tasks", "PureScheduler._tidy_tasks_exception", "PureScheduler.co_shutdown",
                          "PureScheduler.co_run", "PureScheduler._co_run", "PureScheduler._set_sched_ids",
-                         "PureScheduler.list", "PureScheduler.iterate_jobs", "PureScheduler.dot_format", "PureScheduler._dot_body"],
+                         "PureScheduler.list", "PureScheduler._stats", "PureScheduler.stats", "PureScheduler.iterate_jobs", "PureScheduler.dot_format", "PureScheduler._dot_body"],
     "scheduler.py": ["Scheduler.__init__", "Scheduler.co_run", "Scheduler._set_sched_id", "Scheduler._iterate_jobs",
                      "Scheduler.dot_cluster_name", "Scheduler.check_cycles"],
     "job.py": ["AbstractJob.__init__", "AbstractJob._set_sched_id", "AbstractJob.dot_style", "AbstractJob._add_one_requirement",
